@@ -591,6 +591,8 @@ class Inliner:
             exprs = [s.test]
         elif isinstance(s, ast.For):
             exprs = [s.iter]
+        elif isinstance(s, ast.While):
+            exprs = [s.test]
         for root in exprs:
             for n in _walk_no_scopes(root):
                 if isinstance(n, ast.Call):
@@ -607,6 +609,8 @@ class Inliner:
                         _replace_node(s, n, body[0].value)
                         self._note(q, fq)
                         return [s]
+                    if isinstance(s, ast.While):
+                        continue  # a loop condition is re-evaluated: nothing can be hoisted in front of the loop
                     # hoist into a temporary
                     self.counter += 1
                     tmp = "_inl%d_%s" % (self.counter, hfn.name.strip("_"))
@@ -1199,7 +1203,7 @@ def _flatten_bool(e):
     return e
 
 
-def _single_use_test_temp(stmts):
+def _single_use_test_temp(stmts, loads=None):
     """t = <expr>; if t: ...  (t used nowhere else) -> if <expr>: ...; the same for a temporary of the inliner used once in the next simple statement"""
     out = []
     i = 0
@@ -1210,7 +1214,7 @@ def _single_use_test_temp(stmts):
             v = s.targets[0].id
             uses = [n for n in ast.walk(nxt) if isinstance(n, ast.Name) and n.id == v and isinstance(n.ctx, ast.Load)]
             elsewhere = [n for st in stmts[i + 2:] for n in ast.walk(st) if isinstance(n, ast.Name) and n.id == v]
-            if len(uses) == 1 and not elsewhere:
+            if len(uses) == 1 and not elsewhere and (loads is None or loads.get(v, 0) == 1):
                 _replace_node(nxt, uses[0], s.value)
                 i += 1
                 continue
@@ -1218,7 +1222,7 @@ def _single_use_test_temp(stmts):
             v = s.targets[0].id
             uses_in_test = [n for n in ast.walk(nxt.test) if isinstance(n, ast.Name) and n.id == v]
             elsewhere = [n for st in stmts[i + 1:] for n in ast.walk(st) if isinstance(n, ast.Name) and n.id == v and n not in uses_in_test]
-            if len(uses_in_test) == 1 and not elsewhere and v.startswith("_inl"):
+            if len(uses_in_test) == 1 and not elsewhere and loads is not None and loads.get(v, 0) == 1:
                 # the single use must be the first thing the test evaluates
                 first = nxt.test
                 while isinstance(first, (ast.BoolOp, ast.UnaryOp, ast.Compare)):
@@ -1232,12 +1236,12 @@ def _single_use_test_temp(stmts):
     return out
 
 
-def canon_flow_list(stmts, pattern=False, tail=True):
+def canon_flow_list(stmts, pattern=False, tail=True, loads=None):
     """guard-clause form: an `else` after a branch that always leaves the block is flattened; the leaving branch comes first;
     `if not c: A else: B` (neither leaving) becomes `if c: B else: A`; if/else assigning one target becomes a conditional expression"""
     out = []
     if not pattern:
-        stmts = _single_use_test_temp(list(stmts))
+        stmts = _single_use_test_temp(list(stmts), loads)
     for s in stmts:
         if isinstance(s, (ast.If, ast.While)) and not pattern:
             s.test = _bool_simplify(s.test)
@@ -1245,7 +1249,7 @@ def canon_flow_list(stmts, pattern=False, tail=True):
             v = getattr(s, f, None)
             if isinstance(v, list) and v and isinstance(v[0], ast.stmt) and not isinstance(s, (ast.FunctionDef, ast.AsyncFunctionDef, ast.ClassDef)):
                 is_tail = tail and s is stmts[-1] and isinstance(s, ast.If)
-                setattr(s, f, canon_flow_list(v, pattern, tail=is_tail))
+                setattr(s, f, canon_flow_list(v, pattern, tail=is_tail, loads=loads))
         # if A or B: <leave>  ->  if A: <leave>  if B: <leave>
         if isinstance(s, ast.If) and not s.orelse and not pattern and isinstance(s.test, ast.BoolOp) and isinstance(s.test.op, ast.Or) and _exits(s.body) and len(s.body) == 1 and isinstance(s.body[0], (ast.Continue, ast.Break, ast.Return)) and (not isinstance(s.body[0], ast.Return) or isinstance(s.body[0].value, (ast.Constant, type(None)))):
             for v in s.test.values:
@@ -1253,7 +1257,7 @@ def canon_flow_list(stmts, pattern=False, tail=True):
             continue
         if isinstance(s, ast.Try):
             for h in s.handlers:
-                h.body = canon_flow_list(h.body, pattern, tail=False)
+                h.body = canon_flow_list(h.body, pattern, tail=False, loads=loads)
         if isinstance(s, ast.If) and s.orelse:
             wild = pattern and (any(_is_wild(x) for x in s.body) or any(_is_wild(x) for x in s.orelse))
             if not wild:
@@ -1380,6 +1384,12 @@ def canon_flow(tree, pattern=False):
     if isinstance(tree, ast.Module):
         tree.body = canon_flow_list(tree.body, pattern)
     for n in ast.walk(tree):
-        if isinstance(n, (ast.FunctionDef, ast.AsyncFunctionDef, ast.ClassDef)):
+        if isinstance(n, (ast.FunctionDef, ast.AsyncFunctionDef)):
+            loads = {}
+            for x in ast.walk(n):
+                if isinstance(x, ast.Name) and isinstance(x.ctx, ast.Load):
+                    loads[x.id] = loads.get(x.id, 0) + 1
+            n.body = canon_flow_list(n.body, pattern, loads=loads)
+        elif isinstance(n, ast.ClassDef):
             n.body = canon_flow_list(n.body, pattern)
     return tree
